@@ -174,6 +174,8 @@ def run_one(mod, case, prop, tier, S, allow_trace=True):
     if primed:
         ctx.count("primed_by_float_twin")
     every = getattr(mod, "TRACE_EVERY", 23)
+    if tier == "thorough" and every:
+        every = max(5, every // 2)  # denser sampling in the thorough tier
     traced = allow_trace and every and int(case_digest(case), 16) % every == 1 and os.environ.get("VERIF_TRACE", "1") == "1"
     attach.reset_steps()
     attach.drain_violations()
